@@ -582,6 +582,80 @@ func negatedSumCases(w *world) []kase {
 	return out
 }
 
+// shiftedShareCases (CMP key generation / refresh, n >= 3): the first dealer sends one recipient the
+// encryption of share+1 - computed homomorphically from the genuine ciphertext with the recipient's Paillier
+// modulus, which that recipient broadcast in round 3 - so the plaintext is in range and only the check of
+// the share against the dealer's polynomial can refuse it.  (Adding to the ciphertext itself gives a
+// plaintext that is out of range and is refused before that check is reached.)
+func shiftedShareCases(w *world) []kase {
+	if (w.sc.Proto != "cmp-keygen" && w.sc.Proto != "cmp-refresh") || len(w.spec.IDs) < 3 {
+		return nil
+	}
+	moduli := map[party.ID]*big.Int{}
+	for _, d := range w.seq {
+		if d.M == nil || !d.M.Broadcast || d.M.RoundNumber != 3 {
+			continue
+		}
+		if tree, err := faults.Decode(d.M.Data); err == nil {
+			if v, ok := faults.Get(tree, "/N"); ok {
+				switch x := v.(type) {
+				case []byte:
+					moduli[d.M.From] = new(big.Int).SetBytes(x)
+				case big.Int:
+					moduli[d.M.From] = new(big.Int).Set(&x)
+				}
+			}
+		}
+	}
+	var out []kase
+	d := w.spec.IDs[0]
+	for _, to := range w.spec.IDs[1:] {
+		to := to
+		N := moduli[to]
+		if N == nil || N.Sign() == 0 {
+			continue
+		}
+		slot := faults.Slot{From: d, To: to, Round: 4}
+		name := "share-plus1-under-the-recipients-key"
+		f := faults.MessageFault(slot, name, "replace", func(m *protocol.Message) *protocol.Message {
+			tree, err := faults.Decode(m.Data)
+			if err != nil {
+				return m
+			}
+			v, ok := faults.Get(tree, "/Share")
+			if !ok {
+				return m
+			}
+			var c *big.Int
+			var asBytes bool
+			switch x := v.(type) {
+			case []byte:
+				c, asBytes = new(big.Int).SetBytes(x), true
+			case big.Int:
+				c = new(big.Int).Set(&x)
+			default:
+				return m
+			}
+			n2 := new(big.Int).Mul(N, N)
+			c.Mul(c, new(big.Int).Add(N, big.NewInt(1)))
+			c.Mod(c, n2)
+			var nv interface{} = *c
+			if asBytes {
+				nv = c.Bytes()
+			}
+			nt, ok := faults.Set(tree, "/Share", nv, false)
+			if !ok {
+				return m
+			}
+			m.Data = faults.Encode(nt)
+			return m
+		})
+		f.Deviator = d
+		out = append(out, kase{Scenario: w.sc, Deviator: d, Slot: slot, Path: "/Share", Op: name, Menu: "coordinated", fault: f})
+	}
+	return out
+}
+
 func specialCases(w *world, check string) []kase {
 	var out []kase
 	out = append(out, committedValueCases(w)...)
